@@ -40,6 +40,10 @@ def exT : Transport := Ex.seg (Ex.headTE.render ++ exBody) ++ [.err 110, .data [
 def okBody : Bytes := encChunks Ex.chunks ++ Ex.last.enc
 def okRest : List Item := bytesI okBody ++ bytesI (str "HTTP")
 def okT : Transport := Ex.seg2 (Ex.headTE.render ++ okBody) ++ [.data (str "HTTP")]
+/-- the same with a trailer section behind the last-chunk -/
+def okBodyT : Bytes := encChunks Ex.chunks ++ Ex.lastT.enc
+def okRestT : List Item := bytesI okBodyT ++ bytesI (str "HTTP")
+def okTT : Transport := Ex.seg2 (Ex.headTE.render ++ okBodyT) ++ [.data (str "HTTP")]
 end C02u
 
 /-- non-vacuity: one good chunk, a corrupt size line, more bytes, an error, more bytes -/
@@ -76,11 +80,17 @@ The statement as first proposed (`rest = bytesI (pre ++ line ++ eol) ++ post`: t
 bytes only up to the terminator) is FALSE: an Interrupted error (`err 0`) in the stream is retried
 by std's `read_until` / `read_exact` and never seen by the decoder, so a clean end is (rightly)
 reported on `Interrupted, "0\r\n\r\n"`. `C02_chunked_clean_end_bytes_only_false` proves the
-negation from that witness; `C02_chunked_clean_end_needs_terminator` is the true statement
-(the consumed piece `head` of the stream consists of the bytes `pre ++ line ++ eol` and of
-Interrupted errors only), and `C02_chunked_clean_end_needs_terminator_no_intr` is the original
-conclusion under the hypothesis that the stream holds no Interrupted error. `0 < maxBuf` is needed
-as well (see `C02_chunked_clean_end_maxbuf_zero`). -/
+negation from that witness; `C02_chunked_clean_end_needs_terminator_tr` is the true statement
+(the consumed piece `head` of the stream consists of the bytes `pre ++ line ++ trs ++ eol` and of
+Interrupted errors only), and `C02_chunked_clean_end_needs_terminator_tr_no_intr` is the
+original conclusion under the hypothesis that the stream holds no Interrupted error. `0 < maxBuf` is
+needed as well (see `C02_chunked_clean_end_maxbuf_zero`).
+
+Since the decoder skips a trailer section behind the last-chunk (`skip_trailers`), the terminator is
+`line ++ trs ++ eol` with a (possibly empty, bounded) trailer section `trs` between the size line
+that parses to 0 and the final line ending. The statements without `trs`
+(`C02_chunked_clean_end_needs_terminator`, `…_no_intr`, names retired) are false:
+`C02_chunked_clean_end_needs_terminator_false`, witness `0 CRLF A: b CRLF CRLF`. -/
 
 /-- the statement as first proposed, with all its hypotheses (`0 < maxBuf` included) -/
 def C02u.CleanEndOriginal : Prop :=
@@ -133,11 +143,18 @@ theorem C02_chunked_clean_end_bytes_only_false : ¬ C02u.CleanEndOriginal := by
 
 /-- (U3) a clean end (`Ok(0)` on a non-empty caller buffer) is reported ONLY if the stream really
     contains, free of errors and stalls up to that point (Interrupted errors excepted: std retries
-    them), a chunk-size line whose size parses to 0 followed by a line ending: `rest = head ++ post`
-    where `head`, once its Interrupted errors are removed, is exactly the bytes `pre ++ line ++ eol`;
-    `line` is one `read_line` line (it ends in LF), its content parses (`parseChunkSize`) to 0, and
-    `eol` is LF or CRLF. -/
-theorem C02_chunked_clean_end_needs_terminator (h : HeadS) (rest : List Item)
+    them), a chunk-size line whose size parses to 0 followed by a trailer section and a line ending:
+    `rest = head ++ post` where `head`, once its Interrupted errors are removed, is exactly the bytes
+    `pre ++ line ++ trs ++ eol`; `line` is one `read_line` line (it ends in LF), its content parses
+    (`parseChunkSize`) to 0; `trs` is the trailer section: at most `MAX_TRAILER_LINES` `read_line`
+    lines, none with empty content (possibly no line at all); and `eol` is LF or CRLF.
+
+    Since the decoder skips a trailer section (chunked_reader.rs `skip_trailers`), the former
+    statement `C02_chunked_clean_end_needs_terminator` (no `trs`: the line ending right behind the
+    size line) is FALSE: on `0 CRLF A: b CRLF CRLF` a clean end is (rightly) reported — see
+    `C02_chunked_clean_end_behind_trailers` below — but no LF of that stream is directly followed by
+    LF or CRLF behind a line that parses to 0. This is the closest true statement. -/
+theorem C02_chunked_clean_end_needs_terminator_tr (h : HeadS) (rest : List Item)
     (t : Transport) (cap maxBuf mh : Nat) (m : Method) (ns : List Nat)
     (hwf : wfT t) (hcap : 0 < cap) (hmb : 0 < maxBuf) (hh : h.WF L)
     (hmh : h.fields.length ≤ mh) (hms : h.fields.length ≤ Headers.maxSize)
@@ -146,27 +163,37 @@ theorem C02_chunked_clean_end_needs_terminator (h : HeadS) (rest : List Item)
     ∃ resp, parseResponse m mh cap t = .ok resp ∧
       let evs := (reads maxBuf ns resp.body).1
       ∀ i (hi : i < ns.length), 0 < ns[i] → evs[i]? = some (.ok []) →
-        ∃ (pre line eol : Bytes) (head post : List Item), rest = head ++ post ∧
-          head.filter (fun x => x != Item.err 0) = bytesI (pre ++ line ++ eol) ∧
-          (∃ l, stripEol line = some l ∧ parseChunkSize l = .ok 0) ∧ (eol = [10] ∨ eol = [13, 10]) := by
+        ∃ (pre line trs eol : Bytes) (head post : List Item), rest = head ++ post ∧
+          head.filter (fun x => x != Item.err 0) = bytesI (pre ++ line ++ trs ++ eol) ∧
+          (∃ l, stripEol line = some l ∧ parseChunkSize l = .ok 0) ∧
+          (∃ raws : List Bytes, trs = raws.flatten ∧ raws.length ≤ Consts.maxTrailerLines ∧
+            ∀ raw ∈ raws, ∃ t, stripEol raw = some t ∧ t ≠ []) ∧
+          (eol = [10] ∨ eol = [13, 10]) := by
   obtain ⟨r1, hok, hfl, hp⟩ := parseResponse_of_head h hh _ t cap mh hwf hcap hmh hms hflat
   refine ⟨_, hp m .chunked hf, ?_⟩
   intro evs i hi hn hev
-  obtain ⟨pre, line, eol, post, ⟨head, e1, e2⟩, hl, he⟩ :=
+  obtain ⟨pre, line, trs, eol, post, ⟨head, e1, e2⟩, hl, ht, he⟩ :=
     chunked_any_clean_end_ev r1 hok maxBuf ns hmb i hi hn hev
   rw [hfl] at e1
-  exact ⟨pre, line, eol, head, post, e1, e2, hl, he⟩
+  exact ⟨pre, line, trs, eol, head, post, e1, e2, hl, ht, he⟩
 
 /-- non-vacuity: a complete body (two chunks, last-chunk), then bytes of the next response -/
-example := C02_chunked_clean_end_needs_terminator Ex.headTE C02u.okRest C02u.okT 8 4 100 .get
+example := C02_chunked_clean_end_needs_terminator_tr Ex.headTE C02u.okRest C02u.okT 8 4 100 .get
+  [0, 3, 100, 1, 5, 5, 0, 2]
+  (by decide +kernel) (by decide) (by decide) (by decide +kernel) (by decide +kernel)
+  (by decide +kernel) (by decide +kernel) (by decide +kernel)
+
+/-- non-vacuity: the same with a trailer section of two field lines behind the last-chunk -/
+example := C02_chunked_clean_end_needs_terminator_tr Ex.headTE C02u.okRestT C02u.okTT 8 4 100 .get
   [0, 3, 100, 1, 5, 5, 0, 2]
   (by decide +kernel) (by decide) (by decide) (by decide +kernel) (by decide +kernel)
   (by decide +kernel) (by decide +kernel) (by decide +kernel)
 
 /-- (U3, original conclusion) if the stream holds no Interrupted error, a clean end is reported only
-    if the stream starts with bytes only, `pre ++ line ++ eol`, where `line` is a chunk-size line
-    that parses to 0 and `eol` a line ending. -/
-theorem C02_chunked_clean_end_needs_terminator_no_intr (h : HeadS) (rest : List Item)
+    if the stream starts with bytes only, `pre ++ line ++ trs ++ eol`, where `line` is a chunk-size
+    line that parses to 0, `trs` a trailer section (see above) and `eol` a line ending. (The former
+    `C02_chunked_clean_end_needs_terminator_no_intr`, without `trs`, is false for the same reason.) -/
+theorem C02_chunked_clean_end_needs_terminator_tr_no_intr (h : HeadS) (rest : List Item)
     (t : Transport) (cap maxBuf mh : Nat) (m : Method) (ns : List Nat)
     (hwf : wfT t) (hcap : 0 < cap) (hmb : 0 < maxBuf) (hh : h.WF L)
     (hmh : h.fields.length ≤ mh) (hms : h.fields.length ≤ Headers.maxSize)
@@ -176,14 +203,18 @@ theorem C02_chunked_clean_end_needs_terminator_no_intr (h : HeadS) (rest : List 
     ∃ resp, parseResponse m mh cap t = .ok resp ∧
       let evs := (reads maxBuf ns resp.body).1
       ∀ i (hi : i < ns.length), 0 < ns[i] → evs[i]? = some (.ok []) →
-        ∃ (pre line eol : Bytes) (post : List Item), rest = bytesI (pre ++ line ++ eol) ++ post ∧
-          (∃ l, stripEol line = some l ∧ parseChunkSize l = .ok 0) ∧ (eol = [10] ∨ eol = [13, 10]) := by
-  obtain ⟨resp, hr, hp⟩ := C02_chunked_clean_end_needs_terminator h rest t cap maxBuf mh m ns
+        ∃ (pre line trs eol : Bytes) (post : List Item),
+          rest = bytesI (pre ++ line ++ trs ++ eol) ++ post ∧
+          (∃ l, stripEol line = some l ∧ parseChunkSize l = .ok 0) ∧
+          (∃ raws : List Bytes, trs = raws.flatten ∧ raws.length ≤ Consts.maxTrailerLines ∧
+            ∀ raw ∈ raws, ∃ t, stripEol raw = some t ∧ t ≠ []) ∧
+          (eol = [10] ∨ eol = [13, 10]) := by
+  obtain ⟨resp, hr, hp⟩ := C02_chunked_clean_end_needs_terminator_tr h rest t cap maxBuf mh m ns
     hwf hcap hmb hh hmh hms hf hflat
   refine ⟨resp, hr, ?_⟩
   intro evs i hi hn hev
-  obtain ⟨pre, line, eol, head, post, e1, e2, hl, he⟩ := hp i hi hn hev
-  refine ⟨pre, line, eol, post, ?_, hl, he⟩
+  obtain ⟨pre, line, trs, eol, head, post, e1, e2, hl, ht, he⟩ := hp i hi hn hev
+  refine ⟨pre, line, trs, eol, post, ?_, hl, ht, he⟩
   have hfil : head.filter (fun x => x != Item.err 0) = head := by
     rw [List.filter_eq_self]
     intro x hx
@@ -193,10 +224,102 @@ theorem C02_chunked_clean_end_needs_terminator_no_intr (h : HeadS) (rest : List 
   exact e1
 
 /-- non-vacuity: the same complete body (it holds no Interrupted error) -/
-example := C02_chunked_clean_end_needs_terminator_no_intr Ex.headTE C02u.okRest C02u.okT 8 4 100 .get
-  [0, 3, 100, 1, 5, 5, 0, 2]
+example := C02_chunked_clean_end_needs_terminator_tr_no_intr Ex.headTE C02u.okRest C02u.okT 8 4 100
+  .get [0, 3, 100, 1, 5, 5, 0, 2]
   (by decide +kernel) (by decide) (by decide) (by decide +kernel) (by decide +kernel)
   (by decide +kernel) (by decide +kernel) (by decide +kernel) (by decide +kernel)
+
+/-- non-vacuity: … and the body with a trailer section -/
+example := C02_chunked_clean_end_needs_terminator_tr_no_intr Ex.headTE C02u.okRestT C02u.okTT 8 4 100
+  .get [0, 3, 100, 1, 5, 5, 0, 2]
+  (by decide +kernel) (by decide) (by decide) (by decide +kernel) (by decide +kernel)
+  (by decide +kernel) (by decide +kernel) (by decide +kernel) (by decide +kernel)
+
+/-! #### the former (U3) is false since the decoder skips a trailer section -/
+
+/-- the former `C02_chunked_clean_end_needs_terminator`, verbatim (the line ending right behind the
+    size line that parses to 0: no room for a trailer section) -/
+def C02u.CleanEndNoTrailers : Prop :=
+  ∀ (h : HeadS) (rest : List Item) (t : Transport) (cap maxBuf mh : Nat) (m : Method) (ns : List Nat),
+    wfT t → 0 < cap → 0 < maxBuf → h.WF L → h.fields.length ≤ mh → h.fields.length ≤ Headers.maxSize →
+    chooseFraming m h.code h.seen = .ok .chunked → flatT t = bytesI h.render ++ rest →
+    ∃ resp, parseResponse m mh cap t = .ok resp ∧
+      let evs := (reads maxBuf ns resp.body).1
+      ∀ i (hi : i < ns.length), 0 < ns[i] → evs[i]? = some (.ok []) →
+        ∃ (pre line eol : Bytes) (head post : List Item), rest = head ++ post ∧
+          head.filter (fun x => x != Item.err 0) = bytesI (pre ++ line ++ eol) ∧
+          (∃ l, stripEol line = some l ∧ parseChunkSize l = .ok 0) ∧ (eol = [10] ∨ eol = [13, 10])
+
+/-- the witness: the last-chunk with one trailer field line, `0 CRLF A: b CRLF CRLF` -/
+def C02u.trLast : LastS := ⟨str "0", [], [str "A: b"]⟩
+def C02u.trRest : List Item := bytesI C02u.trLast.enc
+def C02u.trT : Transport := [.data (Ex.headTE.render ++ C02u.trLast.enc)]
+
+/-- On `0 CRLF A: b CRLF CRLF` the first read returns `Ok(0)`: the trailer section is skipped and
+    the body IS complete. -/
+theorem C02_chunked_clean_end_behind_trailers :
+    ∃ resp, parseResponse .get 100 8 C02u.trT = .ok resp ∧
+      (reads 4 [1] resp.body).1[0]? = some (.ok []) := by
+  have hwf : wfT C02u.trT := by decide +kernel
+  have hh : Ex.headTE.WF L := by decide +kernel
+  have hf : chooseFraming .get Ex.headTE.code Ex.headTE.seen = .ok .chunked := by decide +kernel
+  have hflat : flatT C02u.trT = bytesI Ex.headTE.render ++ C02u.trRest := by decide +kernel
+  obtain ⟨r1, hok, hfl, hp⟩ := parseResponse_of_head Ex.headTE hh _ C02u.trT 8 100 hwf (by decide)
+    (by decide +kernel) (by decide +kernel) hflat
+  refine ⟨_, hp .get .chunked hf, ?_⟩
+  rw [reads_chunked_flat' r1 hok, hfl, readsC_cons]
+  simp only [List.map_cons, List.getElem?_cons_zero, Option.some.injEq]
+  have := last_clean_end C02u.trLast (by decide +kernel) [] 4 1
+  rw [List.append_nil] at this
+  rw [show C02u.trRest = bytesI C02u.trLast.enc from rfl, this]
+  rfl
+
+/-- in `0 CRLF A: b CRLF CRLF` no line that parses to 0 is directly followed by a line ending
+    (all ways to cut three consecutive pieces out of its 11 bytes, evaluated) -/
+theorem C02u.tr_no_terminator : ∀ i, i < 12 → ∀ j, j < 12 → ∀ k, k < 12 →
+    ((stripEol ((C02u.trLast.enc.drop i).take j)).any (fun l => parseChunkSize l == .ok 0) &&
+      ((C02u.trLast.enc.drop (i + j)).take k == [10] ||
+       (C02u.trLast.enc.drop (i + j)).take k == [13, 10])) = false := by
+  decide +kernel
+
+/-- (the former U3 is false) -/
+theorem C02_chunked_clean_end_needs_terminator_false : ¬ C02u.CleanEndNoTrailers := by
+  intro hall
+  have hwf : wfT C02u.trT := by decide +kernel
+  have hh : Ex.headTE.WF L := by decide +kernel
+  have hf : chooseFraming .get Ex.headTE.code Ex.headTE.seen = .ok .chunked := by decide +kernel
+  have hflat : flatT C02u.trT = bytesI Ex.headTE.render ++ C02u.trRest := by decide +kernel
+  obtain ⟨resp, hresp, hprop⟩ := hall Ex.headTE C02u.trRest C02u.trT 8 4 100 .get [1]
+    hwf (by decide) (by decide) hh (by decide +kernel) (by decide +kernel) hf hflat
+  obtain ⟨resp', hr', hev⟩ := C02_chunked_clean_end_behind_trailers
+  rw [hresp] at hr'
+  cases hr'
+  obtain ⟨pre, line, eol, head, post, e1, e2, ⟨l, hst, hp0⟩, he⟩ := hprop 0 (by decide) (by decide) hev
+  -- the consumed piece holds bytes only
+  have hfil : head.filter (fun x => x != Item.err 0) = head := by
+    rw [List.filter_eq_self]
+    intro x hx
+    have hm : x ∈ C02u.trRest := by rw [e1]; exact List.mem_append_left _ hx
+    obtain ⟨b, _, rfl⟩ := List.mem_map.mp hm
+    rfl
+  rw [hfil] at e2
+  subst e2
+  -- so the three pieces are consecutive pieces of the 11 bytes
+  obtain ⟨l1, l2, hw, hl1, _⟩ := List.map_eq_append_iff.mp (show
+    C02u.trLast.enc.map Item.byte = bytesI (pre ++ line ++ eol) ++ post from e1)
+  have hinj : ∀ x y, Item.byte x = Item.byte y → x = y := fun a b h => by cases h; rfl
+  have hl1' : l1 = pre ++ line ++ eol := (List.map_inj_right hinj).mp hl1
+  subst hl1'
+  have hlen : pre.length + line.length + eol.length + l2.length = 11 := by
+    have := congrArg List.length hw
+    rw [show C02u.trLast.enc.length = 11 by decide +kernel] at this
+    simp only [List.length_append] at this
+    omega
+  have hcore := C02u.tr_no_terminator pre.length (by omega) line.length (by omega) eol.length
+    (by omega)
+  obtain ⟨s1, s2⟩ := split3 pre line eol l2
+  rw [hw, s1, s2, hst] at hcore
+  rcases he with rfl | rfl <;> simp [hp0] at hcore
 
 /-- the size line of a 5-byte chunk and its data, nothing else: no terminator anywhere -/
 def C02u.mbRest : List Item := bytesI (str "5\r\nhello")
@@ -226,10 +349,32 @@ theorem C02_chunked_clean_end_maxbuf_zero :
       bytesI (str "hello") by decide +kernel, this]
     rfl
   · rintro ⟨pre, line, eol, head, post, e1, e2, hl, he⟩
-    have ht : Term C02u.mbRest := ⟨pre, line, eol, post, ⟨head, e1, e2⟩, hl, he⟩
+    have ht : TermT C02u.mbRest :=
+      ⟨pre, line, [], eol, post, ⟨head, e1, by rw [List.append_nil]; exact e2⟩, hl, TrailerSec.nil, he⟩
     have h2 := ht.two_lf
     have h1 : (bytesOf C02u.mbRest).count 10 = 1 := by
       rw [C02u.mbRest, bytesOf_bytesI]; decide +kernel
     omega
+
+/-- … nor a terminator with a trailer section (the conclusion of
+    `C02_chunked_clean_end_needs_terminator_tr` fails as well on that stream: `0 < maxBuf` is
+    needed there too). -/
+theorem C02_chunked_clean_end_maxbuf_zero_trailers :
+    ∃ resp, parseResponse .get 100 8 C02u.mbT = .ok resp ∧
+      (reads 0 [1] resp.body).1[0]? = some (.ok []) ∧
+      ¬ ∃ (pre line trs eol : Bytes) (head post : List Item), C02u.mbRest = head ++ post ∧
+          head.filter (fun x => x != Item.err 0) = bytesI (pre ++ line ++ trs ++ eol) ∧
+          (∃ l, stripEol line = some l ∧ parseChunkSize l = .ok 0) ∧
+          (∃ raws : List Bytes, trs = raws.flatten ∧ raws.length ≤ Consts.maxTrailerLines ∧
+            ∀ raw ∈ raws, ∃ t, stripEol raw = some t ∧ t ≠ []) ∧
+          (eol = [10] ∨ eol = [13, 10]) := by
+  obtain ⟨resp, h1, h2, _⟩ := C02_chunked_clean_end_maxbuf_zero
+  refine ⟨resp, h1, h2, ?_⟩
+  rintro ⟨pre, line, trs, eol, head, post, e1, e2, hl, ht, he⟩
+  have hterm : TermT C02u.mbRest := ⟨pre, line, trs, eol, post, ⟨head, e1, e2⟩, hl, ht, he⟩
+  have h2 := hterm.two_lf
+  have h1 : (bytesOf C02u.mbRest).count 10 = 1 := by
+    rw [C02u.mbRest, bytesOf_bytesI]; decide +kernel
+  omega
 
 end Atto
